@@ -20,6 +20,7 @@ struct It {
 
 struct Ctx {
   const Plan &p;
+  Config cfg;                    // options in force; a reopen may change every one of them except the comparator
   DbOptions opt;
   ldb_t *db = nullptr;
   string dir;
@@ -34,7 +35,7 @@ struct Ctx {
   size_t jscan = 0;
   string open_listing;
   Rng aux;
-  explicit Ctx(const Plan &pl) : p(pl), aux(pl.seed ^ 0xA0C5) { kc.type = pl.cfg.cmp; model = Model(kc); }
+  explicit Ctx(const Plan &pl) : p(pl), cfg(pl.cfg), aux(pl.seed ^ 0xA0C5) { kc.type = pl.cfg.cmp; model = Model(kc); }
 };
 
 void model_put(Model &m, const string &k, const string &v) { m.erase(k); m.emplace(k, v); }
@@ -43,7 +44,7 @@ int live_iters(Ctx &c) { int n = 0; for (auto &i : c.its) if (i.it) n++; return 
 
 void check_get(Ctx &c, const string &k, const Model &m, const ldb_snapshot_t *s, const char *prop, const char *what) {
   string v;
-  int rc = db_get(c.db, k, &v, s, c.p.cfg.verify, c.p.cfg.fillc);
+  int rc = db_get(c.db, k, &v, s, c.cfg.verify, c.cfg.fillc);
   count("get_checks");
   auto f = m.find(k);
   if (f == m.end()) {
@@ -53,7 +54,7 @@ void check_get(Ctx &c, const string &k, const Model &m, const ldb_snapshot_t *s,
   } else if (v != f->second) {
     violation(prop, "get_mismatch", "%s get(%s): expected %s, got %s", what, printable(k).c_str(), printable(f->second).c_str(), printable(v).c_str());
   }
-  ldb_readopt_t ro = *ldb_readopt_default; ro.snapshot = s; ro.verify_checksums = c.p.cfg.verify; ro.fill_cache = c.p.cfg.fillc;
+  ldb_readopt_t ro = *ldb_readopt_default; ro.snapshot = s; ro.verify_checksums = c.cfg.verify; ro.fill_cache = c.cfg.fillc;
   ldb_slice_t kk = S(k);
   int hrc = ldb_has(c.db, &kk, &ro);
   if ((hrc == LDB_OK) != (f != m.end()) || (hrc != LDB_OK && hrc != LDB_NOTFOUND))
@@ -62,14 +63,14 @@ void check_get(Ctx &c, const string &k, const Model &m, const ldb_snapshot_t *s,
 
 void check_scan(Ctx &c, const Model &m, const ldb_snapshot_t *s, const char *prop, const char *what) {
   std::vector<std::pair<string, string>> fw, bw;
-  int rc = db_scan(c.db, &fw, s, c.p.cfg.verify);
+  int rc = db_scan(c.db, &fw, s, c.cfg.verify);
   count("scan_checks");
   if (rc != LDB_OK) { violation(prop, "scan_status", "%s forward scan status %s", what, rcname(rc)); return; }
   if (fw.size() != m.size()) { violation(prop, "scan_mismatch", "%s forward scan yields %zu entries, model has %zu", what, fw.size(), m.size()); return; }
   size_t i = 0;
   for (auto it = m.begin(); it != m.end(); ++it, ++i)
     if (fw[i].first != it->first || fw[i].second != it->second) { violation(prop, "scan_mismatch", "%s forward scan entry %zu: got %s=%s expected %s=%s", what, i, printable(fw[i].first).c_str(), printable(fw[i].second).c_str(), printable(it->first).c_str(), printable(it->second).c_str()); return; }
-  rc = db_scan_back(c.db, &bw, s, c.p.cfg.verify);
+  rc = db_scan_back(c.db, &bw, s, c.cfg.verify);
   if (rc != LDB_OK) { violation(prop, "scan_status", "%s backward scan status %s", what, rcname(rc)); return; }
   if (bw.size() != fw.size()) { violation(prop, "scan_mismatch", "%s backward scan yields %zu entries, forward %zu", what, bw.size(), fw.size()); return; }
   for (size_t k = 0; k < bw.size(); k++)
@@ -136,7 +137,7 @@ void structure_checks(Ctx &c, bool leak_check, const char *why) {
 }
 
 void open_db(Ctx &c, bool first) {
-  c.opt.set(c.p.cfg, true);
+  c.opt.set(c.cfg, true);
   int rc;
   {
     sim::NoPreempt np;
@@ -149,7 +150,7 @@ void open_db(Ctx &c, bool first) {
       string text = db_sstables(c.db);
       c.open_listing = text;
       std::vector<SstFile> files;
-      if (parse_sstables(text, &files)) { check_manifest_replay(c.dir, files, c.p.cfg.cmp, "reopen"); c.mon.note_live(files); }
+      if (parse_sstables(text, &files)) { check_manifest_replay(c.dir, files, c.cfg.cmp, "reopen"); c.mon.note_live(files); }
       else violation("C14", "sstables_parse", "cannot parse leveldb.sstables output after reopen");
       count("manifest_replays");
     }
@@ -163,7 +164,7 @@ void drop_handles(Ctx &c) {
 
 void do_op(Ctx &c, const Op &o, int idx) {
   simfs::set_current_op(idx);
-  const Config &cfg = c.p.cfg;
+  const Config &cfg = c.cfg;
   switch (o.kind) {
     case O_PUT: {
       string v = mkval(o.tag, o.len, o.fill);
@@ -325,6 +326,12 @@ void do_op(Ctx &c, const Op &o, int idx) {
       scan_journal(c);
       ldb_close(c.db); c.db = nullptr;
       sim::drain();
+      if (!o.s.empty()) {
+        // reopen under different options: files written under the old block size, compression, filter policy,
+        // cache, mmap and table-cache settings must read the same under the new ones
+        Config n;
+        if (n.parse(o.s)) { n.cmp = c.cfg.cmp; n.rlimit = c.cfg.rlimit; c.cfg = n; probe("reopen_new_options"); }
+      }
       open_db(c, false);
       if (!c.db) return;
       if (cmp_layout) {
@@ -484,7 +491,7 @@ Plan gen_model(uint64_t seed, const string &prop) {
       case O_COMPACT: o.b = r.chance(style ? 0.7 : 0.3); if (o.b) { o.key = key(); o.key2 = style ? near_key(o.key) : key(); } break;
       case O_APPROX: o.key = key(); o.key2 = key(); break;
       case O_PROPERTY: o.a = (int)r.below(5); break;
-      case O_REOPEN: o.b = r.chance(0.5); break;
+      case O_REOPEN: o.b = r.chance(0.5); if (r.chance(0.5)) { Config n = random_config(r); n.cmp = p.cfg.cmp; n.rlimit = p.cfg.rlimit; o.s = n.str(); } break;
       default: break;
     }
     p.ops.push_back(o);
